@@ -1,4 +1,10 @@
+#[cfg(not(quickwit_oss_mrecordlog_verif))]
 use std::collections::HashMap;
+// Verification stand-in: hashbrown's SIMD probing (and std's BTreeMap with non-trivial values)
+// cannot be executed symbolically; an association list has the same observable behaviour for every
+// method used below.
+#[cfg(quickwit_oss_mrecordlog_verif)]
+use crate::verif_map::VecMap as HashMap;
 use std::ops::{RangeBounds, RangeToInclusive};
 
 #[cfg(not(quickwit_oss_mrecordlog_verif))]
